@@ -324,6 +324,17 @@ def _h_step(ctx, shape, kinds, leader_pos, content_rev, op, argkinds):
             ctx.require(bool(target.contains(v)), "C13.value-lost", f"{tag}: value {v!r} disappeared")
     w = arg(ctx, "w", "i")
     probe_lookup(ctx, target, expected, w, tag + ":post")
+    if new is not None:
+        # two-object history: operating on the derived list (copy / sort / sort_by) leaves the list it was derived from alone
+        leaders = expected.leaders()
+        try:
+            if len(leaders) >= 2:
+                new.group(leaders[0], leaders[1])
+            new.append("zz_fresh")
+        except REFUSED:
+            pass
+        check_unchanged(ctx, gl, snap, tag + ": source after operating on the derived list")
+        check_invariant(ctx, gl, tag + ": source after operating on the derived list")
     return dict(
         counters={"ok": 1},
         sample=dict(op=op, a=a, b=b, pre=[list(x) for x in [snap[0]]], post=list(target)),
@@ -370,8 +381,22 @@ def h_ctor(ctx, mode, n, kinds):
                 groups.append([vals[i], members if self_listed[i] else members + [vals[i]]])
             elif keep_empty[i]:
                 d[vals[i]] = []
+        d_snap = [(k, list(v)) for k, v in d.items()]
         gl = GroupedList(d)
         ref = Ref(groups)
+        # the caller's dict is not modified by the constructor, nor later through the list built from it
+        probe = GroupedList(d)
+        lead = list(probe)
+        try:
+            if len(lead) >= 2:
+                probe.group(lead[0], lead[1])
+            probe.append("zz_fresh")
+        except REFUSED:
+            pass
+        now = [(k, list(v)) for k, v in d.items()]
+        ctx.require(len(now) == len(d_snap), "C13.refused-op-mutated", "ctor:dict: the caller's dict changed")
+        for (k1, v1), (k2, v2) in zip(now, d_snap):
+            req_eq_seq(ctx, v1, v2, "C13.refused-op-mutated", f"ctor:dict: the caller's list for {k2!r} changed when the list built from it was edited")
     elif mode == "copy":
         src = GroupedList(list(vals))
         if n >= 2:
@@ -406,6 +431,7 @@ def h_history(ctx, n, kinds, ops):
     gl = GroupedList(list(vals))
     ref = Ref([[v, [v]] for v in vals])
     universe = list(vals)
+    left_behind = []
     for step, op in enumerate(ops):
         snap = snapshot(gl)
         try:
@@ -458,9 +484,11 @@ def h_history(ctx, n, kinds, ops):
                     snums.insert(pos, g)
                 ref.groups = strs + snums
                 exp = "ok"
+                left_behind.append((gl, snap, step))
                 gl = gl.sort()
             elif op == "copy":
                 exp = "ok"
+                left_behind.append((gl, snap, step))
                 gl = GroupedList(gl)
         except REFUSED as e:
             ctx.require(exp == "refused", "C13.valid-op-refused", f"history step {step} {op}: {type(e).__name__}: {e}")
@@ -469,6 +497,8 @@ def h_history(ctx, n, kinds, ops):
         ctx.require(exp == "ok", "C13.invalid-op-accepted", f"history step {step} {op} accepted, reference refuses")
         check_invariant(ctx, gl, f"history step {step} {op}")
         check_agrees(ctx, gl, ref, f"history step {step} {op}")
+    for old_obj, old_snap, st in left_behind:
+        check_unchanged(ctx, old_obj, old_snap, f"history: the list left behind by step {st} ({ops[st]}) after later operations on the derived list")
     return dict(counters={"ok": 1}, sample=dict(ops=ops, order=list(gl)),
                 result=dict(order=list(gl), content=[(k, list(v)) for k, v in gl.content.items()]))
 
